@@ -34,3 +34,23 @@ func (ch *Channel) VerifWriteMsgPacketTo(w io.Writer) (int, error) {
 func (ch *Channel) VerifRecvMsgPacket(p VerifMsgPacket) ([]byte, error) {
 	return ch.recvMsgPacket(p)
 }
+
+// --- C20 (attacker model at handshake level): the building blocks of the key
+// exchange, so that a scripted party can run it with an ephemeral key of its
+// choosing.  Pure re-exports / a field-by-field constructor, no logic.
+
+func VerifGenEphKeys() (ephPub, ephPriv *[32]byte) { return genEphKeys() }
+
+func VerifComputeSharedSecret(remPubKey, locPrivKey *[32]byte) *[32]byte {
+	return computeSharedSecret(remPubKey, locPrivKey)
+}
+
+func VerifGenNonces(loPubKey, hiPubKey *[32]byte, locIsLo bool) (recvNonce, sendNonce *[24]byte) {
+	return genNonces(loPubKey, hiPubKey, locIsLo)
+}
+
+// VerifSecretConnectionOf returns a SecretConnection with the given session
+// state (what MakeSecretConnection fills in before the authentication round).
+func VerifSecretConnectionOf(conn io.ReadWriteCloser, recvNonce, sendNonce *[24]byte, shrSecret *[32]byte) *SecretConnection {
+	return &SecretConnection{conn: conn, recvNonce: recvNonce, sendNonce: sendNonce, shrSecret: shrSecret}
+}
